@@ -338,6 +338,57 @@ Proof.
     apply in_map. exact I.
 Qed.
 
+(* ---- the sample rate matters only in mode on ---- *)
+Lemma create_report_rate_not_on mode asof (cfg : runcfg') r l g : mode <> m_on ->
+  create_report' mode asof (with_rate R cfg r) l g = create_report' mode asof cfg l g.
+Proof.
+  intros H. unfold create_report. rewrite !upload_ok_not_on by exact H. reflexivity.
+Qed.
+
+Lemma reports_loop_rate_not_on mode asof (cfg : runcfg') r uploaded gs : mode <> m_on -> forall l ready,
+  reports_loop' mode asof (with_rate R cfg r) uploaded gs l ready = reports_loop' mode asof cfg uploaded gs l ready.
+Proof.
+  intros H. induction gs as [|g gs IH]; intros l ready; cbn [reports_loop]; [reflexivity|].
+  destruct (not_needed _ _ _); [rewrite IH; reflexivity|].
+  rewrite (create_report_rate_not_on mode asof cfg r l g H).
+  destruct (create_report' mode asof cfg l g) as [[nm e1] l1]. rewrite IH. reflexivity.
+Qed.
+
+Lemma upload_one_rate (cfg : runcfg') r today x d :
+  upload_one R (with_rate R cfg r) today x d = upload_one R cfg today x d.
+Proof. reflexivity. Qed.
+
+Lemma upload_all_rate (cfg : runcfg') r today ready : forall d,
+  upload_all R (with_rate R cfg r) today ready d = upload_all R cfg today ready d.
+Proof.
+  induction ready as [|x rest IH]; intros d; cbn [upload_all]; [reflexivity|].
+  rewrite upload_one_rate. destruct (upload_one R cfg today x d) as [e d1]. rewrite IH. reflexivity.
+Qed.
+
+Theorem rate_irrelevant_not_on mode asof (cfg : runcfg') r d : mode <> m_on ->
+  run_ma' mode asof (with_rate R cfg r) d = run_ma' mode asof cfg d.
+Proof.
+  intros H. unfold run_ma. change (rc_start (with_rate R cfg r)) with (rc_start cfg).
+  destruct (find_work mode asof d (rc_start cfg)) as [[w e1] d1].
+  unfold reports. change (rc_start (with_rate R cfg r)) with (rc_start cfg).
+  destruct (beq mode m_off); [rewrite upload_all_rate; reflexivity|].
+  destruct (d_local d1) as [l|].
+  - rewrite (reports_loop_rate_not_on mode asof cfg r (w_uploaded w) (groups_of (rc_start cfg) (w_count w)) H l (w_ready w)).
+    destruct (reports_loop' _ _ _ _ _ _ _) as [[rd e2] l2]. rewrite upload_all_rate. reflexivity.
+  - rewrite upload_all_rate. reflexivity.
+Qed.
+
+(* upload.Run = the run with the PUBLISHED sample rate, whatever the mode: in
+   mode on it is the downloaded one, elsewhere the rate has no influence *)
+Theorem run_entry_is_run published (cfg : runcfg') fs :
+  run_entry R rlt rzero published cfg fs = run' (with_rate R cfg published) fs.
+Proof.
+  unfold run_entry. destruct (beq (mode_of (fs_mode fs)) m_on) eqn:E; [reflexivity|].
+  apply beq_neq in E. unfold run.
+  rewrite (rate_irrelevant_not_on _ _ cfg rzero (dirs_of fs) E).
+  rewrite (rate_irrelevant_not_on _ _ cfg published (dirs_of fs) E). reflexivity.
+Qed.
+
 (* ---- the uploader has none of the counter package's effects ---- *)
 Definition not_counter (e : effect) : bool :=
   match e with ECounterFile | ECounterAdd => false | _ => true end.
